@@ -83,6 +83,7 @@ PROPS = {
         dict(name='opt', n=n(40000, 1500000), view='opt_c05', oracle='none', laws=['c05']),
         dict(name='optill', n=n(20000, 500000), view='opt_c05', oracle='none', laws=['c05']),
         dict(name='spine:opt', n=n(1500, 40000), view='opt_c05', oracle='none', laws=['c05'], case_timeout=20.0),
+        dict(name='chain:opt', n=n(100, 1500), view='opt_c05', oracle='none', laws=['c05'], case_timeout=30.0),
         dict(name='script', n=n(20000, 500000), view='script_opt', oracle='none', laws=['script_c05']),
     ],
     rule='opt/optill: random trees (depth<=4) mixing foldable all-literal sub-trees, variables in several spellings, if_then calls with 2-4 arguments, pure and impure functions of all arity kinds, folds that fail midway; '
@@ -96,6 +97,7 @@ PROPS = {
         dict(name='opt', n=n(40000, 1500000), view='opt_c06', oracle='none', laws=['c06'], case_timeout=20.0),
         dict(name='optill', n=n(20000, 500000), view='opt_c06', oracle='none', laws=['c06'], case_timeout=20.0),
         dict(name='spine:opt', n=n(1500, 40000), view='opt_c06', oracle='none', laws=['c06'], case_timeout=20.0),
+        dict(name='chain:opt', n=n(100, 1500), view='opt_c06', oracle='none', laws=['c06'], case_timeout=30.0),
     ],
     rule='same trees as C05 through a recording Environment. Compared: status, tree, the events optimize performed, whether a foldable node is left, re-optimisation, node counts; '
          'the falsifier inspects the real result structurally (foldable nodes by the property\'s own definition) and checks purity of every recorded event against the registered functions',
@@ -178,6 +180,8 @@ PROPS = {
         dict(name='spine:chkvf', n=n(1000, 30000), view='first', oracle='none', laws=['no_crash'], case_timeout=20.0),
         dict(name='spine:chkbool', n=n(1000, 30000), view='first', oracle='none', laws=['no_crash'], case_timeout=20.0),
         dict(name='spine:json', n=n(1000, 30000), view='jsonclass', oracle='none', laws=['no_crash'], case_timeout=20.0),
+        dict(name='chain:opt', n=n(60, 1000), view='first', oracle='none', laws=['no_crash'], case_timeout=30.0),
+        dict(name='chain:eval', n=n(60, 1000), view='first', laws=['no_crash'], case_timeout=30.0),
     ],
     rule='ill-formed generator: all 17 operators in unary/binary/ternary position, empty and odd names, non-finite and array literals, wrong argument counts, registered and unregistered calls; '
          'deep:* = one spine nested 1..64 levels with small random siblings. Every case runs in a worker process; compared observation: ok / err / crash / timeout class only. non-trivial = tree has an operator/call/array node',
@@ -232,9 +236,11 @@ PROPS = {
              'Unicode case mapping / White_Space from Rust std tables'],
  ),
  'C16': dict(
-    modules=['SlacProps.C16', 'SlacProps.C16Float', 'SlacProps.C16Rfc', 'SlacProps.C16RfcFloat'],
+    modules=['SlacProps.C16', 'SlacProps.C16Float', 'SlacProps.C16Rfc', 'SlacProps.C16RfcFloat', 'SlacProps.C16Zone', 'SlacProps.C16ZoneFloat'],
     streams=[
         dict(name='tmrange', n=n(0, 1), view='tmrange', oracle='none', laws=['tmrange'], case_timeout=600.0),
+        dict(name='tzeast', gen='call:' + TIME_FNS, n=n(300, 6000), oracle='none', laws=['no_crash'], tz='CET-1CEST,M3.5.0,M10.5.0/3', tz_invariant=True),
+        dict(name='tzwest', gen='call:' + TIME_FNS, n=n(300, 6000), oracle='none', laws=['no_crash'], tz='EST5EDT,M3.2.0,M11.1.0', tz_invariant=True),
         dict(name='tmfmt', gen='py:timegen.py fmt', n=n(6000, 150000), oracle='none', laws=['no_crash']),
         dict(name='tmparse', gen='py:timegen.py parse', n=n(6000, 150000), oracle='none', laws=['no_crash']),
         dict(name='tmtz', gen='py:timegen.py tz', n=n(3000, 60000), oracle='none', laws=['no_crash']),
